@@ -64,6 +64,22 @@ int main(int argc, char **argv) {
       else if (c != ref) o.fail("C01 decoded point multiset differs across methods (same quantization): method=" + S(method) + " speed=" + S(speed) + " pc#" + S(i) + " seed=" + argv[2]);
     }
   }
+  // many attributes: the Edgebreaker stream addresses attribute data with a signed 8-bit id and counts them in a uint8
+  // (fix 29338a7: the encoder refuses more than 128 non-position attributes; before, 130..255 encoded but did not decode)
+  for (int na : {2, 127, 128, 129, 130, 200}) {
+    Mesh m; m.set_num_points(4); GenInfo gi;
+    for (int a = 0; a < na; a++) { GeometryAttribute ga; if (a == 0) ga.Init(GeometryAttribute::POSITION, nullptr, 3, DT_INT32, false, 12, 0); else ga.Init(GeometryAttribute::GENERIC, nullptr, 1, DT_INT32, false, 4, 0);
+      int id = m.AddAttribute(ga, true, 4); for (int p = 0; p < 4; p++) { int32_t v[3] = {p % 2 * 10 + a, p / 2 * 10, a * p}; m.attribute(id)->SetAttributeValue(AttributeValueIndex(p), v); }
+      gi.uids.push_back(m.attribute(id)->unique_id()); }
+    Mesh::Face f; f[0] = PointIndex(0); f[1] = PointIndex(1); f[2] = PointIndex(3); m.AddFace(f); f[0] = PointIndex(0); f[1] = PointIndex(3); f[2] = PointIndex(2); m.AddFace(f);
+    for (int method : {MESH_EDGEBREAKER_ENCODING, MESH_SEQUENTIAL_ENCODING}) for (int sub : {MESH_EDGEBREAKER_STANDARD_ENCODING, MESH_EDGEBREAKER_VALENCE_ENCODING}) {
+      Encoder e; e.SetEncodingMethod(method); e.SetSpeedOptions(5, 5); e.options().SetGlobalInt("edgebreaker_method", sub);
+      EncoderBuffer b; Status s = e.EncodeMeshToBuffer(m, &b); encodes++; if (!s.ok()) { enc_failed++; continue; }
+      DecoderBuffer d; d.Init(b.data(), b.size()); Decoder dec; auto res = dec.DecodeMeshFromBuffer(&d);
+      if (!res.ok()) { o.fail("C01 encode ok but decode failed (" + std::string(res.status().error_msg()) + "): mesh with " + S(na) + " attributes method=" + S(method) + " sub=" + S(sub)); continue; }
+      if (canon_mesh(*res.value(), gi.uids, false) != canon_mesh(m, gi.uids, false)) o.fail("C01 attributes lost or changed: mesh with " + S(na) + " attributes method=" + S(method) + " sub=" + S(sub));
+    }
+  }
   std::string ps; for (auto &kv : paths) ps += " " + kv.first + "=" + S(kv.second);
   o.note("STATS geometries=" + S(geos) + " encodes=" + S(encodes) + " encode_failures=" + S(enc_failed) + " paths:" + ps);
   fprintf(stderr, "h_c01: %ld geometries, %ld encodes, %ld failures\n", geos, encodes, o.fails);
